@@ -1,70 +1,70 @@
 /- REGENERATED from /repo on every run by /verif/harness/cmd/extract — do not edit. -/
 namespace Ibx.Gen.Dot
 
-/-- format of `returnPath := fmt.Sprintf(…)` in Deliver: some "Return-Path: <%s>\r\n" -/
+/-- format of the first fmt.Sprintf that Deliver's MultiReader reads (fmt.Sprintf#0): some "Return-Path: <%s>\r\n" -/
 def returnPathFmt : Option (List Nat) := some [82, 101, 116, 117, 114, 110, 45, 80, 97, 116, 104, 58, 32, 60, 37, 115, 62, 13, 10]
 
-/-- its arguments -/
-def returnPathArgs : List String := ["from.Address.Address"]
+/-- its arguments ($p<i> = i-th parameter of Deliver) -/
+def returnPathArgs : List String := ["$p0.Address.Address"]
 
-/-- format of `recvd := fmt.Sprintf(…)` in Deliver: some "%s  for <%s>; %s\r\n" -/
+/-- format of the second one (fmt.Sprintf#1): some "%s  for <%s>; %s\r\n" -/
 def recvdFmt : Option (List Nat) := some [37, 115, 32, 32, 102, 111, 114, 32, 60, 37, 115, 62, 59, 32, 37, 115, 13, 10]
 
 /-- its arguments -/
-def recvdArgs : List String := ["recvdHeader", "mb", "tstamp"]
+def recvdArgs : List String := ["$p2", "$each($v.Mailboxes)", "$outer(time.Now().UTC().Format(recvdTimeFmt))"]
 
 /-- the readers concatenated into the stored source, in order -/
-def multiReaderArgs : Option (List String) := some ["strings.NewReader(returnPath)", "strings.NewReader(recvd)", "bytes.NewReader(source)"]
+def multiReaderArgs : Option (List String) := some ["strings.NewReader(fmt.Sprintf#0)", "strings.NewReader(fmt.Sprintf#1)", "bytes.NewReader($p3)"]
 
-/-- time layout of the Received timestamp (rendered in UTC: fixed width) -/
+/-- time layout of the Received timestamp (package-level constant recvdTimeFmt; rendered in UTC: fixed width) -/
 def recvdTimeFmt : Option String := some "Mon, 02 Jan 2006 15:04:05 -0700 (MST)"
 
-/-- format of `recvdHeader := fmt.Sprintf(…)` in dataHandler: some "Received: from %s ([%s]) by %s\r\n" -/
+/-- format of the fmt.Sprintf the DATA handler passes to Deliver (fmt.Sprintf#hdr): some "Received: from %s ([%s]) by %s\r\n" -/
 def recvdHeaderFmt : Option (List Nat) := some [82, 101, 99, 101, 105, 118, 101, 100, 58, 32, 102, 114, 111, 109, 32, 37, 115, 32, 40, 91, 37, 115, 93, 41, 32, 98, 121, 32, 37, 115, 13, 10]
 
-/-- its arguments -/
-def recvdHeaderArgs : List String := ["s.remoteDomain", "s.remoteHost", "s.config.Domain"]
+/-- its arguments ($r = the session) -/
+def recvdHeaderArgs : List String := ["$r.remoteDomain", "$r.remoteHost", "$r.config.Domain"]
 
-/-- what dataHandler passes to Deliver -/
-def deliverArgs : Option (List String) := some ["s.from", "s.recipients", "recvdHeader", "mailData.Bytes()"]
+/-- what the DATA handler passes to Deliver, each argument traced to where it comes from (locals and the block-reading helper looked through) -/
+def deliverArgs : Option (List String) := some ["$r.from", "$r.recipients", "fmt.Sprintf#hdr", "bytes.NewBuffer($r.text.ReadDotBytes()#0).Bytes()"]
 
-/-- every definition of mailData in dataHandler -/
-def mailDataDefs : List String := ["bytes.NewBuffer(msgBuf)"]
+/-- arguments of <scanner>.Buffer in the helper behind RETR (none = default 64 KiB token limit, or not recognised); $p = a parameter of the helper -/
+def sendMessageBuffer : Option (List String) := some ["nil", "int($p.Size()) + 1"]
 
-/-- readDataBlock calls s.text.ReadDotBytes() exactly once -/
-def readsDotBytes : Bool := true
-
-/-- arguments of scanner.Buffer in sendMessage (none = default 64 KiB token limit, or not recognised) -/
-def sendMessageBuffer : Option (List String) := some ["nil", "int(msg.Size()) + 1"]
-
-/-- literals of strings.HasPrefix(line, …) in sendMessage -/
+/-- literals of strings.HasPrefix(<line>, …) in the helper behind RETR -/
 def sendMessageDotTest : List (List Nat) := [[46]]
 
-/-- every `line = …` in sendMessage -/
-def sendMessageLineRewrites : List String := ["\".\" + line"]
+/-- where <line> comes from and every later assignment to it -/
+def sendMessageLineRewrites : List String := ["$line := $outer(bufio.NewScanner($p.Source()#0)).Text()", "$line = \".\" + $line"]
 
-/-- argument of bufio.NewScanner in sendMessage (no Split call = ScanLines) -/
-def sendMessageScanner : Option (List String) := some ["reader"]
+/-- what the scan loop hands to the reply helper -/
+def sendMessageLoopSends : List String := ["$line"]
 
-/-- a scanner.Split call would replace ScanLines -/
+/-- argument of bufio.NewScanner in the helper behind RETR (no Split call = ScanLines) -/
+def sendMessageScanner : Option (List String) := some ["$p.Source()#0"]
+
+/-- a <scanner>.Split call would replace ScanLines -/
 def sendMessageHasSplit : Bool := false
 
-/-- arguments of scanner.Buffer in sendMessageTop (none = default 64 KiB token limit, or not recognised) -/
-def sendMessageTopBuffer : Option (List String) := some ["nil", "int(msg.Size()) + 1"]
+/-- arguments of <scanner>.Buffer in the helper behind TOP (none = default 64 KiB token limit, or not recognised); $p = a parameter of the helper -/
+def sendMessageTopBuffer : Option (List String) := some ["nil", "int($p.Size()) + 1"]
 
-/-- literals of strings.HasPrefix(line, …) in sendMessageTop -/
+/-- literals of strings.HasPrefix(<line>, …) in the helper behind TOP -/
 def sendMessageTopDotTest : List (List Nat) := [[46]]
 
-/-- every `line = …` in sendMessageTop -/
-def sendMessageTopLineRewrites : List String := ["\".\" + line"]
+/-- where <line> comes from and every later assignment to it -/
+def sendMessageTopLineRewrites : List String := ["$line := $outer(bufio.NewScanner($p.Source()#0)).Text()", "$line = \".\" + $line"]
 
-/-- argument of bufio.NewScanner in sendMessageTop (no Split call = ScanLines) -/
-def sendMessageTopScanner : Option (List String) := some ["reader"]
+/-- what the scan loop hands to the reply helper -/
+def sendMessageTopLoopSends : List String := ["$line"]
 
-/-- a scanner.Split call would replace ScanLines -/
+/-- argument of bufio.NewScanner in the helper behind TOP (no Split call = ScanLines) -/
+def sendMessageTopScanner : Option (List String) := some ["$p.Source()#0"]
+
+/-- a <scanner>.Split call would replace ScanLines -/
 def sendMessageTopHasSplit : Bool := false
 
-/-- what POP3 send writes for a line -/
-def pop3SendArgs : Option (List String) := some ["s.conn", "msg + \"\\r\\n\""]
+/-- what the POP3 reply helper (the unexported method that calls fmt.Fprint) writes for a line -/
+def pop3SendArgs : Option (List String) := some ["$r.conn", "$p + \"\\r\\n\""]
 
 end Ibx.Gen.Dot
